@@ -31,6 +31,11 @@ var Properties = map[string]func(*Ctx){
 	"C03": C03,
 	"C01": C01,
 	"C11": C11,
+	"C12": C12,
+}
+
+func C12(c *Ctx) {
+	R11HTTPProfile(c)
 }
 
 func C11(c *Ctx) {
